@@ -697,6 +697,10 @@ func (i *PostingsIterator) ReplaceActual(abm *roaring.Bitmap) {
 }
 
 func (i *PostingsIterator) Count() uint64 {
+	if i.postings == nil {
+		// the shared empty iterator has no postings list behind it
+		return 0
+	}
 	return i.postings.Count()
 }
 
